@@ -271,6 +271,9 @@ def base64url_decode(data: str) -> str:
         raise BadRequest(f"Encoded data {data} is invalid base64url!")
     except UnicodeDecodeError:
         raise BadRequest(f"Encoded base64url value is not a valid {BASE64URL_ENCODING} string!")
+    except ValueError:
+        # e.g. non-ASCII characters in the encoded string
+        raise BadRequest(f"Encoded data {data} is invalid base64url!")
     return decoded
 
 
